@@ -91,12 +91,13 @@ TAct ==
         /\ E.th = (IF mreq.cmd \in Steps THEN mreq.th ELSE -1)     \* pause is always Pause(None); steps carry the thread
         /\ E.outcome = (IF mreq.cmd = "pause" /\ mode = "Paused" THEN "Ignored" ELSE "Applied")
         /\ MAct
-     \/ \* the repaired coordinator: a void Breakpoint stop is dropped AND execution resumed
-        /\ cpc = "dropGenL" /\ E.kind = "Continue" /\ E.th = -1 /\ DoContinue
-        /\ cpc' = "recv" /\ resumeDue' = (IF rt = "wait" THEN TRUE ELSE resumeDue)
+     \/ \* the repaired coordinator: a void Breakpoint stop is dropped AND execution resumed (before or after the
+        \* transcript line of the drop)
+        /\ cpc \in {"dropGen", "dropGenL"} /\ E.kind = "Continue" /\ E.th = -1 /\ DoContinue
+        /\ cpc' = (IF cpc = "dropGen" THEN "dropGenR" ELSE "recv") /\ resumeDue' = (IF rt = "wait" THEN TRUE ELSE resumeDue)
         /\ UNCHANGED <<bpGen, bpN, rt, stopId, inCycle, chan, cstop, PE, gate, mvars, inq, wire, clvars, acts, answered, delivered, orderBad>>
      \/ \* after disconnect: stop_runner() clears the breakpoints and continues once more
-        /\ mpc = "exit" /\ cpc # "dropGenL" /\ E.kind = "Continue" /\ DoContinue
+        /\ mpc = "exit" /\ E.kind = "Continue" /\ DoContinue
         /\ resumeDue' = (IF rt = "wait" THEN TRUE ELSE resumeDue)
         /\ UNCHANGED <<bpGen, bpN, rt, stopId, inCycle, chan, cvars, PE, gate, mvars, inq, wire, clvars, acts, answered, delivered, orderBad>>
   /\ mode' = E.ma
@@ -139,6 +140,7 @@ TCDrop ==
   /\ E.a = "CDrop" /\ Step1 /\ UNCHANGED <<run, curStop>> /\ SameStop(cstop)
   /\ \/ /\ E.why = "pause_expected" /\ cpc = "dropPE" /\ cpc' = "recv" /\ cstop' = NoStop /\ UNCHANGED genDropped
      \/ /\ E.why = "generation" /\ cpc = "dropGen" /\ cpc' = "dropGenL" /\ cstop' = NoStop /\ genDropped' = cstop.id
+     \/ /\ E.why = "generation" /\ cpc = "dropGenR" /\ cpc' = "recv" /\ cstop' = NoStop /\ UNCHANGED genDropped
   /\ UNCHANGED <<rtvars, chan, PE, gate, mvars, inq, wire, clvars, acts, answered, delivered, orderBad, resumeDue>>
 TLogStopped ==
   /\ E.a = "Log" /\ E.kind = "stopped" /\ Step1 /\ Keep /\ cpc = "emitL" /\ UNCHANGED vars
